@@ -1,5 +1,6 @@
 import SecsModel.Proofs.Pair
 import SecsModel.Proofs.PairData
+import SecsModel.Gen.Machines
 /-!
 # C20 — a host and an equipment reach communication and agree on data (abstract pair model)
 
@@ -11,6 +12,25 @@ stale states needs (T3 > establish-communications delay), with the fair non-conv
 -/
 namespace SecsModel.Props.C20
 open SecsModel.Model.Pair SecsModel.Proofs.Pair
+
+def connName : Conn → String
+  | .nc => "NOT_CONNECTED" | .ns => "CONNECTED_NOT_SELECTED" | .sel => "CONNECTED_SELECTED"
+def commName : Comm → String
+  | .dis => "DISABLED" | .notc => "NOT_COMMUNICATING" | .wcra => "WAIT_CRA" | .wdelay => "WAIT_DELAY" | .comm => "COMMUNICATING"
+
+/-- `a → b` is a transition of the generated machine table -/
+def inTable (t : Gen.MachineTable) (a b : String) : Bool :=
+  t.transitions.any (fun tr => tr.2.1.contains a && tr.2.2 == b)
+
+/-- **Tie to the source (regenerated on every run).**  The session steps of the pair model are exactly the transitions of the
+shipped `ConnectionStateMachine`, and every communication step of the pair model is a transition of the shipped
+`CommunicationStateMachine` (the table additionally allows `s1f13received` from WAIT_DELAY, which no handler requests). -/
+theorem tables_match_source :
+    (∀ a b : Conn, connOk a b = inTable Gen.ConnSM (connName a) (connName b))
+    ∧ (∀ a b : Comm, commOk .sel a b = true → inTable Gen.CommSM (commName a) (commName b) = true) := by
+  constructor
+  · intro a b; cases a <;> cases b <;> decide
+  · intro a b; cases a <;> cases b <;> decide
 
 /-- **Start-up, all delivery orders, both role assignments, both enable orders.**  After `enable`,`enable`,`linkUp` every
 interleaving of message deliveries ends — after at most 8 deliveries — with both ends COMMUNICATING and nothing in flight. -/
